@@ -151,6 +151,8 @@ type InstanceResult struct {
 	SolverTime  time.Duration
 	Sat, Unsat, Unknown int
 	SolverErrors []string
+	ByTag map[string]int
+	TimeByTag map[string]time.Duration
 }
 
 type runCfg struct {
@@ -252,6 +254,7 @@ func runInstance(sh *Shared, fn *ssa.Function, params []int, cfg runCfg) Instanc
 	res.Queries, res.SolverTime = sol.NQueries, sol.Time
 	res.Sat, res.Unsat, res.Unknown = sol.NSat, sol.NUnsat, sol.NUnknown
 	res.SolverErrors = sol.Errors
+	res.ByTag, res.TimeByTag = sol.ByTag, sol.TimeByTag
 	return res
 }
 
@@ -393,6 +396,25 @@ func cmdRun(args []string) {
 	sh := NewShared(prog)
 	res := runInstance(sh, fn, parseParams(*ps), runCfg{unwind: *unwind, maxSteps: *maxSteps, maxPaths: *maxPaths, timeout: time.Duration(*timeout) * time.Second, solver: *solver, solverTimeoutMs: 30000, logDir: *logDir, witnessPerInstance: 2})
 	fmt.Printf("paths=%d completed=%d aborted=%d queries=%d (sat %d unsat %d unknown %d) solver=%v wall=%v\n", res.Paths, res.Completed, res.Aborted, res.Queries, res.Sat, res.Unsat, res.Unknown, res.SolverTime.Round(time.Millisecond), res.Wall.Round(time.Millisecond))
+	if debugSites {
+		type kv struct {
+			k string
+			n int
+		}
+		var l []kv
+		for k, n := range sh.stats.m {
+			if strings.HasPrefix(k, "site ") {
+				l = append(l, kv{k, n})
+			}
+		}
+		sort.Slice(l, func(i, j int) bool { return l[i].n > l[j].n })
+		for i, e := range l {
+			if i < 15 {
+				fmt.Printf("  %6d %s\n", e.n, e.k)
+			}
+		}
+	}
+	fmt.Printf("queries by kind: %v time: %v\n", res.ByTag, res.TimeByTag)
 	for _, s := range res.Inconclusive {
 		fmt.Printf("INCONCLUSIVE: %s\n", s)
 	}
